@@ -813,8 +813,8 @@ class PDFDocument:
             (objs, n) = self._parsed_objs[stream.objid]
         else:
             (objs, n) = self._get_objects(stream)
-            if self.caching:
-                assert stream.objid is not None
+            if self.caching and stream.objid is not None:
+                # (no number: the "object stream" was not a stream object)
                 self._parsed_objs[stream.objid] = (objs, n)
         i = n * 2 + index
         try:
